@@ -690,3 +690,44 @@ Definition op_key (s : state) (o : op) : option key :=
 (* ops whose book entry is deliberately not tied to a coin movement in the same op:
    DecreaseNetFeeCollectedData alone (book only) *)
 Definition book_only (o : op) : bool := match o with DecNetFee _ _ _ => true | _ => false end.
+
+(* ---- the per-op table, both sides: what a SUCCESSFUL op does to the book entry net_fee(k) and
+   to the collector's coin balance (one denom; every other denom is unchanged).  [s'] is only
+   consulted to see whether an auction start flipped IsAuctionActive.  The savings-rate change
+   (UpdLookup) pays one reward per locker of the lookup and is described separately. ---- *)
+Definition nf_delta_of (s s' : state) (o : op) (k : key) : Z :=
+  match o with
+  | V1SurplusStart app asset =>
+      at_key app asset k (if started s s' app asset then - lot_of s app asset else 0)
+  | V2CheckStats app asset =>
+      at_key app asset k (if started s s' app asset && af_surplus (flags_of s app asset) then - lot_of s app asset else 0)
+  | _ => nf_delta_spec s o k
+  end.
+
+Definition coin_delta_of (s s' : state) (o : op) : Z * Z :=     (* (denom, change of the collector balance) *)
+  match o with
+  | LDeposit u app asset lid amt rw => (asset, - credited s app asset lid rw)
+  | LWithdraw u app asset lid amt rw => (asset, - credited s app asset lid rw)
+  | LClose u app asset lid rw => (asset, - credited s app asset lid rw)
+  | LRewardCalc app lid rw =>
+      match find_locker (lockers s) lid with
+      | Some ld => (l_asset ld, - credited s app (l_asset ld) lid rw)
+      | None => (0, 0)
+      end
+  | FeeIn app asset amt un => (asset, amt)
+  | GetAmount app asset amt => (asset, - amt)
+  | DecNetFee app asset amt => (asset, 0)
+  | SurplusFund app asset u denom amt => (denom, - amt)
+  | V1Penalty app asset amt => (asset, amt)
+  | V2Penalty app ca da amt => (da, amt)
+  | V1SurplusClose app asset lot bidder esm => (asset, if bidder && negb esm then 0 else lot)
+  | V1DebtClose app asset amt bids esm => (asset, if esm then 0 else if bids then amt else 0)
+  | V2SurplusClose app asset lot => (asset, - lot)
+  | V2DebtClose app asset ca dd da => (dd, da)
+  | V1SurplusStart app asset => (asset, if started s s' app asset then - lot_of s app asset else 0)
+  | V2CheckStats app asset =>
+      (asset, if started s s' app asset && af_surplus (flags_of s app asset) then - lot_of s app asset else 0)
+  | _ => (0, 0)
+  end.
+
+Definition is_upd_lookup (o : op) : bool := match o with UpdLookup _ _ _ _ _ _ _ _ => true | _ => false end.
